@@ -197,7 +197,31 @@ def run_shard(spec, R):
             hcase = {"dim": dim, "typed": typed, "updated": which, "step": upd, "current": {k: np.asarray(v).tolist() for k, v in cur.items()}}
             s2 = cur["scaling"]
             tol2 = 1e-9 * (1 + float(np.max(np.abs(X))) + float(np.max(np.abs(cur["translation"])))) * max(s2, 1 / s2)
+            if upd == 0:
+                # a refused update in between (an angle that is no number): the object stays the map it was
+                bad_rot = [float(v) for v in np.asarray(cur["rotation"], float)]
+                bad_rot[-1] = None
+                try:
+                    A.set_parameters(rotation=bad_rot)
+                except Exception:
+                    R.count("refused_update_in_between")
+                    # whatever map the object is left with (the property does not say), it is a map with its inverse
+                    ok_r, rt_ = R.guarded("call", lambda: (A.inverse(A(inp)), A(A.inverse(inp))))
+                    if ok_r:
+                        err_r = float(max(np.max(np.abs(np.asarray(rt_[0], float) - X)), np.max(np.abs(np.asarray(rt_[1], float) - X))))
+                        R.check(err_r <= 1e-9 * (1 + float(np.max(np.abs(X))) + float(np.max(np.abs(cur["translation"])))) * max(cur["scaling"], 1 / cur["scaling"]), "round_trip",
+                                lambda: {**{"dim": dim, "typed": typed}, "direction": "after a refused update of the angles", "max_err": err_r}, group=f"{dim}d/refused_update")
+                # all parameters are set anew (a valid update), so that the object is the map described by `cur` again
+                A.set_parameters(translation=np.array(cur["translation"], float), scaling=cur["scaling"], rotation=np.array(cur["rotation"], float))
             ok, vals = R.guarded("call", lambda: (A(inp), F(inp), A.inverse(inp), F.inverse(inp), A.inverse(A(inp)), A(A.inverse(inp))))
+            if ok and not typed:
+                # points in whole units (integer-typed arrays) are points like the same numbers as floats
+                Xi = np.round(3 * X).astype(int)
+                ok_i, vi = R.guarded("call", lambda: (A(Xi), A(Xi.astype(float)), A.inverse(Xi), A.inverse(Xi.astype(float))))
+                if ok_i:
+                    R.check(np.allclose(np.asarray(vi[0], float), np.asarray(vi[1], float), rtol=1e-13, atol=1e-13) and np.allclose(np.asarray(vi[2], float), np.asarray(vi[3], float), rtol=1e-13, atol=1e-13),
+                            "integer_typed_points_equal_float_points", lambda: {**hcase, "max_forward_diff": float(np.max(np.abs(np.asarray(vi[0], float) - np.asarray(vi[1], float)))),
+                                                                            "max_inverse_diff": float(np.max(np.abs(np.asarray(vi[2], float) - np.asarray(vi[3], float))))}, group=f"{dim}d")
             if ok:
                 ya, yf, ia, jf, rt1, rt2 = [np.asarray(v, float) for v in vals]
                 R.check(np.array_equal(ya, yf) and np.array_equal(ia, jf), "updated_object_equals_fresh_object",
